@@ -732,7 +732,6 @@ fn op_ana(w: &[&str]) -> Option<String> {
     let confs = tok::parse_list(tok::kv(w, "R")?, tok::parse_conf, ',')?;
     let roas: Vec<ConfiguredRoa> =
         confs.into_iter().map(|c| ConfiguredRoa { roa_configuration: c, roa_objects: vec![] }).collect();
-    let analyser = load_analyser(data.as_deref())?;
     let scope = BgpAnalyser::verif_scope_prefixes(limit.as_ref().unwrap_or(&res));
     let head = format!(
         "H={} L={} SC={}",
@@ -741,6 +740,7 @@ fn op_ana(w: &[&str]) -> Option<String> {
         tok::list(&scope, |p| tok::prefix(*p), ",")
     );
     let out = guarded(|| {
+        let analyser = load_analyser(data.as_deref()).expect("RISwhois text loads");
         let rep = analyser.analyse(&roas, &res, limit.clone());
         let sug = analyser.suggest(&roas, &res, limit.clone());
         (rep, sug)
